@@ -387,7 +387,8 @@ func splitParams(raw string) (map[string][]string, bool) {
 }
 
 var (
-	reDateTimeZ = regexp.MustCompile(`^(\d{4})-(\d{2})-(\d{2})T(\d{2}):(\d{2}):(\d{2})(\.\d+)?Z$`)
+	reDateTimeZ      = regexp.MustCompile(`^(\d{4})-(\d{2})-(\d{2})T(\d{2}):(\d{2}):(\d{2})(\.\d+)?Z$`)
+	reDateTimeOffset = regexp.MustCompile(`^(\d{4}-\d{2}-\d{2}T\d{2}:\d{2}:\d{2})(\.\d+)?([+-])(\d{2}):(\d{2})$`)
 	// other lexical forms of a timestamp on which XML Schema and lenient parsers differ (zone offsets, no zone, comma fractions)
 	reDateTimeAny = regexp.MustCompile(`^-?\d{4,}-\d{2}-\d{2}T\d{2}:\d{2}:\d{2}([.,]\d+)?(Z|[+-]\d{2}:\d{2})?$`)
 )
@@ -415,6 +416,25 @@ func parseInstant(s string) (time.Time, string) {
 			t = t.Add(time.Duration(ns))
 		}
 		return t, "ok"
+	}
+	if m := reDateTimeOffset.FindStringSubmatch(s); m != nil {
+		// an xs:dateTime with a numeric zone offset names a definite instant, whether or not the IdP supports the form:
+		// accepting a request whose real instant is outside the window is wrong either way
+		base, err := time.Parse("2006-01-02T15:04:05", m[1])
+		if err != nil {
+			return time.Time{}, "garbage"
+		}
+		var hh, mm int
+		fmt.Sscanf(m[4], "%d", &hh)
+		fmt.Sscanf(m[5], "%d", &mm)
+		if hh > 14 || mm > 59 {
+			return time.Time{}, "garbage"
+		}
+		off := time.Duration(hh)*time.Hour + time.Duration(mm)*time.Minute
+		if m[3] == "+" {
+			off = -off
+		}
+		return base.Add(off), "ok"
 	}
 	if reDateTimeAny.MatchString(s) {
 		return time.Time{}, "other-form"
